@@ -202,8 +202,13 @@ func validateSiacoins(ms *MidState, txn types.Transaction, ts V1TransactionSuppl
 	for _, fc := range txn.FileContracts {
 		outputSum = outputSum.Add(fc.Payout)
 	}
+	// NOTE: miner fees are not covered by validateCurrencyOverflow, so adding
+	// them may overflow
 	for _, fee := range txn.MinerFees {
-		outputSum = outputSum.Add(fee)
+		var overflow bool
+		if outputSum, overflow = outputSum.AddWithOverflow(fee); overflow {
+			return errors.New("transaction outputs exceed inputs")
+		}
 	}
 	if inputSum.Cmp(outputSum) != 0 {
 		return fmt.Errorf("siacoin inputs (%v) do not equal outputs (%v)", inputSum, outputSum)
